@@ -1141,7 +1141,7 @@ class PyFat(object):
             ctime = (tm[3] << 11) | (tm[4] << 5) | (tm[5]//2)
             volume_id = cdate << 16 | ctime
 
-        num_sec = math.ceil(size / sector_size)
+        num_sec = size // sector_size
         num_sec_to_sec_per_clus = {
             PyFat.FAT_TYPE_FAT32: [
                (66600, 0),      # disks up to  32.5 MB, error
@@ -1280,6 +1280,24 @@ class PyFat(object):
             })
 
         self.__verify_bpb_header()
+
+        # The requested size has to result in a cluster count which
+        # belongs to the requested FAT type, see fatgen103.doc
+        data_sectors = num_sec - (rsvd_sec_cnt +
+                                  number_of_fats * self._fat_size +
+                                  self.root_dir_sectors)
+        count_of_clusters = data_sectors // sec_per_clus
+        if count_of_clusters < 4085:
+            possible_fat_type = PyFat.FAT_TYPE_FAT12
+        elif count_of_clusters < 65525:
+            possible_fat_type = PyFat.FAT_TYPE_FAT16
+        else:
+            possible_fat_type = PyFat.FAT_TYPE_FAT32
+        if count_of_clusters < 1 or possible_fat_type != fat_type:
+            raise PyFATException(f"Cannot create a FAT{fat_type} filesystem "
+                                 f"with {count_of_clusters} clusters, choose "
+                                 f"a different size or FAT type.",
+                                 errno=errno.EINVAL)
 
         # write fat sector
         self.fat = [0] * self.bpb_header["BPB_BytsPerSec"]
